@@ -104,10 +104,84 @@ func goroutineDump() string {
 	return string(buf[:n])
 }
 
+// idxMap maps the small logical indices the scripts reason about to the indices handed to the
+// watermark: strictly increasing, f(0)=0. kinds: 0 identity; 1 everything above j jumps to 2^63;
+// 2 everything above j jumps to just below MaxUint64; 3 stride 2^40; 4 indices around 2^32;
+// 5 indices around 2^31. The logical domain is [0, 2^21).
+type idxMap struct {
+	kind int
+	j    uint64
+}
+
+func caseIdxMap(c core.Case) idxMap {
+	return idxMap{kind: int(c.Int("imap", 0)), j: uint64(c.Int("imapj", 3))}
+}
+
+func (im idxMap) f(i uint64) uint64 {
+	if i == 0 {
+		return 0
+	}
+	switch im.kind {
+	case 1:
+		if i > im.j {
+			return 1<<63 + (i - im.j)
+		}
+	case 2:
+		if i > im.j {
+			return ^uint64(0) - 1<<21 + (i - im.j)
+		}
+	case 3:
+		return i << 40
+	case 4:
+		return 1<<32 - im.j + i
+	case 5:
+		return 1<<31 - im.j + i
+	}
+	return i
+}
+
+func (im idxMap) describe() string {
+	switch im.kind {
+	case 1:
+		return fmt.Sprintf("i for i <= %d, 2^63+(i-%d) above", im.j, im.j)
+	case 2:
+		return fmt.Sprintf("i for i <= %d, MaxUint64-2^21+(i-%d) above", im.j, im.j)
+	case 3:
+		return "i<<40"
+	case 4:
+		return fmt.Sprintf("2^32-%d+i", im.j)
+	case 5:
+		return fmt.Sprintf("2^31-%d+i", im.j)
+	}
+	return "i"
+}
+
+// inv: the largest logical index whose image is <= d (an observed mark at or above f(i) and below
+// f(i+1) has passed exactly the logical indices <= i)
+func (im idxMap) inv(d uint64) uint64 {
+	lo, hi := uint64(0), uint64(1<<21)
+	for lo < hi {
+		mid := (lo + hi + 1) / 2
+		if im.f(mid) <= d {
+			lo = mid
+		} else {
+			hi = mid - 1
+		}
+	}
+	return lo
+}
+
+// waitReachL: waitReach in logical indices
+func waitReachL(w *watermark.WaterMark, im idxMap, want uint64, patience time.Duration) (uint64, bool) {
+	d, ok := waitReach(w, im.f(want), patience)
+	return im.inv(d), ok
+}
+
 func wmSeq(c core.Case, res *core.Result) {
 	r := rand.New(rand.NewSource(c.Seed))
 	w := watermark.New()
 	defer w.Stop()
+	im := caseIdxMap(c)
 	m := newWMModel()
 	n := int(c.Int("ops", 200))
 	maxIdx := uint64(c.Int("maxidx", 30))
@@ -117,10 +191,10 @@ func wmSeq(c core.Case, res *core.Result) {
 	var last uint64
 	reads, quiescent, repeated, outOfOrder, peakOpen := 0, 0, 0, 0, 0
 	fail := func(sig, f string, a ...any) {
-		res.Violate("C13", "C13/seq/"+sig, "%s\nlast calls: %s", fmt.Sprintf(f, a...), strings.Join(trace[max(0, len(trace)-25):], " "))
+		res.Violate("C13", "C13/seq/"+sig, "%s\nlast calls (logical indices; index i is handed to the watermark as %s): %s", fmt.Sprintf(f, a...), im.describe(), strings.Join(trace[max(0, len(trace)-25):], " "))
 	}
 	observe := func(when string) bool {
-		d := w.DoneUntil()
+		d := im.inv(w.DoneUntil())
 		reads++
 		if d < last {
 			fail("decreased", "%s: DoneUntil went from %d to %d", when, last, d)
@@ -137,19 +211,19 @@ func wmSeq(c core.Case, res *core.Result) {
 	if c.Int("recoverydone", 0) == 1 {
 		// Done without Begin as the very first mark, as recovery does
 		t := uint64(1 + r.Intn(int(maxIdx)))
-		w.Done(t)
+		w.Done(im.f(t))
 		m.apply(t, true)
 		trace = append(trace, fmt.Sprintf("Done(%d)!", t))
 		if r.Intn(2) == 0 {
 			// ... and, as the first reader after a restart does, Begin of that very index: it is
 			// unfinished now (a Done only counts against an earlier Begin) and holds the mark back
-			w.Begin(t)
+			w.Begin(im.f(t))
 			m.apply(t, false)
 			open = append(open, t)
 			trace = append(trace, fmt.Sprintf("Begin(%d)", t))
-			w.Begin(t + 1)
+			w.Begin(im.f(t + 1))
 			m.apply(t+1, false)
-			w.Done(t + 1)
+			w.Done(im.f(t + 1))
 			m.apply(t+1, true)
 			trace = append(trace, fmt.Sprintf("Begin(%d) Done(%d)", t+1, t+1))
 		}
@@ -172,7 +246,7 @@ func wmSeq(c core.Case, res *core.Result) {
 			default: // mostly increasing, like timestamps
 				t = m.L + 1 + uint64(r.Intn(5))
 			}
-			w.Begin(t)
+			w.Begin(im.f(t))
 			m.apply(t, false)
 			open = append(open, t)
 			trace = append(trace, fmt.Sprintf("Begin(%d)", t))
@@ -186,12 +260,12 @@ func wmSeq(c core.Case, res *core.Result) {
 			}
 			t := open[j]
 			open = append(open[:j], open[j+1:]...)
-			w.Done(t)
+			w.Done(im.f(t))
 			m.apply(t, true)
 			trace = append(trace, fmt.Sprintf("Done(%d)", t))
 		default:
 			// quiescent point: every mark sent so far must take effect without further calls
-			d, ok := waitReach(w, m.L, c13Patience())
+			d, ok := waitReachL(w, im, m.L, c13Patience())
 			quiescent++
 			if !ok {
 				fail("never-catches-up", "DoneUntil()=%d stays below the logical mark %d although no call is outstanding\n%s", d, m.L, goroutineDump())
@@ -207,14 +281,14 @@ func wmSeq(c core.Case, res *core.Result) {
 		}
 	}
 	for _, t := range open {
-		w.Done(t)
+		w.Done(im.f(t))
 		m.apply(t, true)
 		trace = append(trace, fmt.Sprintf("Done(%d)", t))
 		if !observe("while finishing") {
 			return
 		}
 	}
-	d, ok := waitReach(w, m.L, c13Patience())
+	d, ok := waitReachL(w, im, m.L, c13Patience())
 	if !ok {
 		fail("never-catches-up", "after every index was finished DoneUntil()=%d stays below %d\n%s", d, m.L, goroutineDump())
 		return
@@ -231,6 +305,10 @@ func wmSeq(c core.Case, res *core.Result) {
 		res.AddObs("seq_scripts_>100_in_flight", 1)
 	}
 	res.NonTrivial = repeated > 0 && outOfOrder > 0
+	if im.kind != 0 {
+		res.AddObs(fmt.Sprintf("seq_scripts_index_map_%d", im.kind), 1)
+		trace = append(trace, fmt.Sprintf("imap%d/%d", im.kind, im.j))
+	}
 	res.Hash = core.HashOf(trace)
 	if c.Int("sample", 0) == 1 {
 		res.Sample = map[string]any{"kind": "seq", "calls": trace[:min(30, len(trace))], "final_mark": m.L}
@@ -298,6 +376,7 @@ var wmPorcModel = porcupine.Model{
 func wmConc(c core.Case, res *core.Result) {
 	w := watermark.New()
 	defer w.Stop()
+	im := caseIdxMap(c)
 	var clock atomic.Int64
 	var mu sync.Mutex
 	var ops []porcupine.Operation
@@ -324,7 +403,7 @@ func wmConc(c core.Case, res *core.Result) {
 				switch x := r.Intn(10); {
 				case x < 4:
 					ts := uint8(1 + r.Intn(wmNI-1))
-					rec(wmIn{0, ts}, func() any { w.Begin(uint64(ts)); return nil })
+					rec(wmIn{0, ts}, func() any { w.Begin(im.f(uint64(ts))); return nil })
 					open = append(open, ts)
 					for {
 						m := maxTs.Load()
@@ -336,9 +415,9 @@ func wmConc(c core.Case, res *core.Result) {
 					j := r.Intn(len(open))
 					ts := open[j]
 					open = append(open[:j], open[j+1:]...)
-					rec(wmIn{1, ts}, func() any { w.Done(uint64(ts)); return nil })
+					rec(wmIn{1, ts}, func() any { w.Done(im.f(uint64(ts))); return nil })
 				default:
-					d := rec(wmIn{2, 0}, func() any { return uint8(w.DoneUntil()) }).(uint8)
+					d := rec(wmIn{2, 0}, func() any { return uint8(im.inv(w.DoneUntil())) }).(uint8)
 					if d < lastSeen {
 						monoBad.Store(fmt.Sprintf("goroutine %d saw DoneUntil go from %d to %d", g, lastSeen, d))
 					}
@@ -349,7 +428,7 @@ func wmConc(c core.Case, res *core.Result) {
 				}
 			}
 			for _, ts := range open {
-				rec(wmIn{1, ts}, func() any { w.Done(uint64(ts)); return nil })
+				rec(wmIn{1, ts}, func() any { w.Done(im.f(uint64(ts))); return nil })
 			}
 			mu.Lock()
 			ops = append(ops, local...)
@@ -362,7 +441,7 @@ func wmConc(c core.Case, res *core.Result) {
 	}
 	// everything begun has been finished: the mark must reach the largest index without further calls
 	if want := maxTs.Load(); want > 0 {
-		if d, ok := waitReach(w, want, c13Patience()); !ok {
+		if d, ok := waitReachL(w, im, want, c13Patience()); !ok {
 			res.Violate("C13", "C13/conc/never-catches-up", "every begun index is finished but DoneUntil()=%d stays below %d\n%s", d, want, goroutineDump())
 		}
 	}
@@ -382,7 +461,7 @@ func wmConc(c core.Case, res *core.Result) {
 	res.AddObs("conc_histories", 1)
 	res.AddObs("conc_operations", int64(len(ops)))
 	res.NonTrivial = G >= 2 && len(ops) > 10
-	res.Hash = fmt.Sprintf("wmconc-%d-%d-%d", c.Seed, G, N)
+	res.Hash = fmt.Sprintf("wmconc-%d-%d-%d-%d", c.Seed, G, N, im.kind)
 	if c.Int("sample", 0) == 1 {
 		res.Sample = map[string]any{"kind": "conc", "goroutines": G, "ops": len(ops)}
 	}
@@ -394,6 +473,7 @@ func wmWait(c core.Case, res *core.Result) {
 	r := rand.New(rand.NewSource(c.Seed))
 	w := watermark.New()
 	defer w.Stop()
+	im := caseIdxMap(c)
 	type waiter struct {
 		t        uint64
 		done     chan error
@@ -404,6 +484,9 @@ func wmWait(c core.Case, res *core.Result) {
 		exited   chan struct{} // closed when the waiter goroutine has returned
 	}
 	top := uint64(5 + r.Intn(20))
+	if im.kind == 1 || im.kind == 2 {
+		im.j %= top // the jump lies inside the range of indices used
+	}
 	var ws []*waiter
 	// Stop closes the mark channel: no waiter goroutine may still be on its way into WaitForMark
 	// then (it would panic with 'send on closed channel' - a fault of this harness, not of the code)
@@ -423,9 +506,9 @@ func wmWait(c core.Case, res *core.Result) {
 		wt := &waiter{t: t, done: make(chan error, 1), cancel: cancel, never: never, exited: make(chan struct{})}
 		go func() {
 			defer close(wt.exited)
-			err := w.WaitForMark(ctx, t)
+			err := w.WaitForMark(ctx, im.f(t))
 			if err == nil {
-				wt.after.Store(w.DoneUntil())
+				wt.after.Store(im.inv(w.DoneUntil()))
 			}
 			wt.done <- err
 		}()
@@ -434,7 +517,7 @@ func wmWait(c core.Case, res *core.Result) {
 	}
 	// indices 1..top begun in order
 	for t := uint64(1); t <= top; t++ {
-		w.Begin(t)
+		w.Begin(im.f(t))
 	}
 	// waiters registered before the mark advances: several on one index, some beyond top (never reached)
 	nBefore := 1 + r.Intn(12)
@@ -452,7 +535,7 @@ func wmWait(c core.Case, res *core.Result) {
 	// finish in random order, registering more waiters in between (before/after their index is reached)
 	order := r.Perm(int(top))
 	for _, i := range order {
-		w.Done(uint64(i + 1))
+		w.Done(im.f(uint64(i + 1)))
 		if r.Intn(3) == 0 {
 			start(1+uint64(r.Intn(int(top))), false)
 		}
@@ -460,7 +543,7 @@ func wmWait(c core.Case, res *core.Result) {
 			time.Sleep(time.Duration(r.Intn(100)) * time.Microsecond)
 		}
 	}
-	if d, ok := waitReach(w, top, c13Patience()); !ok {
+	if d, ok := waitReachL(w, im, top, c13Patience()); !ok {
 		res.Violate("C13", "C13/wait/never-catches-up", "DoneUntil()=%d stays below %d after every index was finished\n%s", d, top, goroutineDump())
 		return
 	}
@@ -485,7 +568,7 @@ func wmWait(c core.Case, res *core.Result) {
 		case <-time.After(c13Patience()):
 			dump := goroutineDump()
 			if strings.Contains(dump, "WaitForMark") {
-				res.Violate("C13", "C13/wait/lost-wakeup", "DoneUntil()=%d >= %d was observed 20 s ago and the waiter is still parked in WaitForMark\n%s", w.DoneUntil(), wt.t, dump)
+				res.Violate("C13", "C13/wait/lost-wakeup", "DoneUntil()=%d >= %d was observed 20 s ago and the waiter is still parked in WaitForMark\n%s", im.inv(w.DoneUntil()), wt.t, dump)
 			} else {
 				res.Verdict = "inconclusive"
 				res.Inconcl = "waiter did not report within 20 s but is not parked in WaitForMark"
@@ -500,7 +583,7 @@ func wmWait(c core.Case, res *core.Result) {
 		// must still be waiting; ends with the context error once the context ends
 		select {
 		case err := <-wt.done:
-			res.Violate("C13", "C13/wait/returned-unreached", "WaitForMark(%d) returned %v although DoneUntil()=%d never reached it", wt.t, err, w.DoneUntil())
+			res.Violate("C13", "C13/wait/returned-unreached", "WaitForMark(%d) returned %v although DoneUntil()=%d never reached it", wt.t, err, im.inv(w.DoneUntil()))
 			continue
 		default:
 		}
@@ -519,12 +602,12 @@ func wmWait(c core.Case, res *core.Result) {
 	// second phase: the indices the cancelled waiters were registered for are reached now; waiters
 	// that start afterwards on far indices must still wait (nothing stale may wake them)
 	for t := top + 1; t <= top+8; t++ {
-		w.Begin(t)
+		w.Begin(im.f(t))
 	}
 	for t := top + 1; t <= top+8; t++ {
-		w.Done(t)
+		w.Done(im.f(t))
 	}
-	if d, ok := waitReach(w, top+8, c13Patience()); !ok {
+	if d, ok := waitReachL(w, im, top+8, c13Patience()); !ok {
 		res.Violate("C13", "C13/wait/never-catches-up", "second phase: DoneUntil()=%d stays below %d\n%s", d, top+8, goroutineDump())
 		return
 	}
@@ -536,14 +619,14 @@ func wmWait(c core.Case, res *core.Result) {
 	for _, wt := range late {
 		select {
 		case err := <-wt.done:
-			res.Violate("C13", "C13/wait/returned-unreached", "WaitForMark(%d) returned %v although DoneUntil()=%d (a waiter cancelled earlier on a lower index had been registered)", wt.t, err, w.DoneUntil())
+			res.Violate("C13", "C13/wait/returned-unreached", "WaitForMark(%d) returned %v although DoneUntil()=%d (a waiter cancelled earlier on a lower index had been registered)", wt.t, err, im.inv(w.DoneUntil()))
 		default:
 		}
 		wt.cancel()
 	}
 	// a context that is already over, on an unreachable index
 	ctx, cancel := context.WithTimeout(context.Background(), time.Millisecond)
-	err := w.WaitForMark(ctx, top+100)
+	err := w.WaitForMark(ctx, im.f(top+100))
 	cancel()
 	if !errors.Is(err, context.DeadlineExceeded) {
 		res.Violate("C13", "C13/wait/wrong-context-error", "WaitForMark on an unreachable index with a 1 ms deadline returned %v", err)
@@ -554,7 +637,10 @@ func wmWait(c core.Case, res *core.Result) {
 	res.AddObs("wait_waiters_returned", int64(reached))
 	res.AddObs("wait_waiters_cancelled", int64(cancelled+1))
 	res.NonTrivial = reached >= 2
-	res.Hash = fmt.Sprintf("wmwait-%d", c.Seed)
+	if im.kind != 0 {
+		res.AddObs(fmt.Sprintf("wait_scenarios_index_map_%d", im.kind), 1)
+	}
+	res.Hash = fmt.Sprintf("wmwait-%d-%d", c.Seed, im.kind)
 	if c.Int("sample", 0) == 1 {
 		res.Sample = map[string]any{"kind": "wait", "indices": top, "waiters": len(ws), "finish_order": order}
 	}
@@ -590,6 +676,13 @@ func wmFlood(c core.Case, res *core.Result) {
 
 func runC13(c core.Case) core.Result {
 	var res core.Result
+	defer func() {
+		if im := caseIdxMap(c); im.kind != 0 {
+			for i := range res.Violations {
+				res.Violations[i].Detail = "(indices below are logical; index i is handed to the watermark as " + im.describe() + ")\n" + res.Violations[i].Detail
+			}
+		}
+	}()
 	switch c.Kind {
 	case "flood":
 		wmFlood(c, &res)
@@ -622,10 +715,18 @@ func genC13(tier string, seed int64) []core.Case {
 		if i == 0 {
 			c.N["sample"] = 1
 		}
+		if i%5 == 2 {
+			c.N["imap"] = int64(1 + (i/5)%5)
+			c.N["imapj"] = int64(r.Intn(12))
+		}
 		cs = append(cs, c)
 	}
 	for i := 0; i < nc; i++ {
 		c := core.Case{ID: fmt.Sprintf("con%05d", i), Kind: "conc", Seed: r.Int63(), N: map[string]int64{"goroutines": int64(2 + i%5), "ops": 25}}
+		if i%4 == 1 {
+			c.N["imap"] = int64(1 + (i/4)%5)
+			c.N["imapj"] = int64(r.Intn(wmNI))
+		}
 		if i == 0 {
 			c.N["sample"] = 1
 		}
@@ -640,6 +741,10 @@ func genC13(tier string, seed int64) []core.Case {
 	}
 	for i := 0; i < nw; i++ {
 		c := core.Case{ID: fmt.Sprintf("wai%05d", i), Kind: "wait", Seed: r.Int63(), N: map[string]int64{}}
+		if i%3 == 1 {
+			c.N["imap"] = int64(1 + (i/3)%5)
+			c.N["imapj"] = int64(r.Intn(30))
+		}
 		if i == 0 {
 			c.N["sample"] = 1
 		}
